@@ -36,14 +36,14 @@ theorem createSc_spec {T} {ms : Mid} (hc : Ctx T ms.base) (hI : Inv T ms) {id : 
     refine ⟨fun _ => hb Kind.sc, fun h => ?_, fun h => ?_⟩ <;> simp at h
   have hA := putSc_agree hI.struct hc.disj hT f hfid
   refine ⟨putSc_inv hI hc.disj hT f hfid hok, hA, hF.tail.agree hA (fun q hq => hF.head_not_mem q hq), ?_, ?_,
-    putSc_pool _ _ _, putSc_base _ _ _⟩
+    putSc_pool _ _ _, putSc_base_c1 _ _ _⟩
   · unfold Phi
     rw [putSc_tot_fresh hI.struct hc.disj hT f hfid hv (hb Kind.sc),
-      fc1Tot_congr (putSc_base _ _ _) (putSc_fces _ _ _), fc2Tot_congr (putSc_base _ _ _) (putSc_v2fces _ _ _),
+      fc1Tot_congr (putSc_base_c1 _ _ _) (putSc_fces _ _ _), fc2Tot_congr (putSc_base_c1 _ _ _) (putSc_v2fces _ _ _),
       putSc_pool, hnew]
     have : scDv ⟨⟨id, o.value, o.addr, mat, none⟩, true, false⟩ = o.value := rfl
     rw [this]; omega
-  · exact sfTot_congr (putSc_base _ _ _) (putSc_sfes _ _ _)
+  · exact sfTot_congr (putSc_base_c1 _ _ _) (putSc_sfes _ _ _)
 
 /-- what validation establishes about a siacoin element that is about to be spent -/
 def SpendableSc (T : Kind → Id → Prop) (ms : Mid) (e : ScElem) : Prop :=
@@ -95,15 +95,15 @@ theorem spendSc_spec {T} {ms : Mid} (hc : Ctx T ms.base) (hI : Inv T ms) {e : Sc
       · have := (hd.2.1 h).1; rw [hm.1] at this; cases this
   have hA1 := putSc_agree hI.struct hc.disj hT f hfid
   have hA2 := agree_addSpend (ms.putSc e.id f) e.id
-  simp only [putSc_spends] at hA2 ⊢
+  simp only [putSc_spends_c1] at hA2 ⊢
   have hI' := putSc_inv' hI hc.disj hT f hfid (e.id :: ms.spends) (fun x hx => List.mem_cons_of_mem _ hx) hok
-  refine ⟨hI', hA1.trans hA2, ?_, ?_, putSc_pool _ _ _, putSc_base _ _ _⟩
+  refine ⟨hI', hA1.trans hA2, ?_, ?_, putSc_pool _ _ _, putSc_base_c1 _ _ _⟩
   · unfold Phi
     have e1 : scTot { ms.putSc e.id f with spends := e.id :: ms.spends } = scTot (ms.putSc e.id f) := scTot_congr rfl rfl
     have e2 : fc1Tot { ms.putSc e.id f with spends := e.id :: ms.spends } = fc1Tot ms :=
-      fc1Tot_congr (putSc_base _ _ _) (putSc_fces _ _ _)
+      fc1Tot_congr (putSc_base_c1 _ _ _) (putSc_fces _ _ _)
     have e3 : fc2Tot { ms.putSc e.id f with spends := e.id :: ms.spends } = fc2Tot ms :=
-      fc2Tot_congr (putSc_base _ _ _) (putSc_v2fces _ _ _)
+      fc2Tot_congr (putSc_base_c1 _ _ _) (putSc_v2fces _ _ _)
     have e4 : ({ ms.putSc e.id f with spends := e.id :: ms.spends } : Mid).pool = ms.pool := putSc_pool _ _ _
     rw [e1, e2, e3, e4]
     have hdv : scDv (scNew ms e.id f) = 0 := by rw [hnew]; rfl
@@ -117,7 +117,7 @@ theorem spendSc_spec {T} {ms : Mid} (hc : Ctx T ms.base) (hI : Inv T ms) {e : Sc
       have := putSc_tot_found hI.struct hc.disj hT f hfid hv
       have hd : scDv d = e.value := by unfold scDv; rw [hm.1]; exact hm.2
       omega
-  · exact sfTot_congr (putSc_base _ _ _) (putSc_sfes _ _ _)
+  · exact sfTot_congr (putSc_base_c1 _ _ _) (putSc_sfes _ _ _)
 
 -- ------------------------------------------------------------------ siafund outputs
 
@@ -139,10 +139,10 @@ theorem createSf_spec {T} {ms : Mid} (hc : Ctx T ms.base) (hI : Inv T ms) {id : 
     refine ⟨fun _ => hb Kind.sf, fun h => ?_, fun h => ?_⟩ <;> simp at h
   have hA := putSf_agree hI.struct hc.disj hT f hfid
   refine ⟨putSf_inv hI hc.disj hT f hfid hok, hA, hF.tail.agree hA (fun q hq => hF.head_not_mem q hq), ?_, ?_,
-    putSf_pool _ _ _, putSf_base _ _ _⟩
+    putSf_pool _ _ _, putSf_base_c1 _ _ _⟩
   · unfold Phi
-    rw [scTot_congr (putSf_base _ _ _) (putSf_sces _ _ _),
-      fc1Tot_congr (putSf_base _ _ _) (putSf_fces _ _ _), fc2Tot_congr (putSf_base _ _ _) (putSf_v2fces _ _ _),
+    rw [scTot_congr (putSf_base_c1 _ _ _) (putSf_sces _ _ _),
+      fc1Tot_congr (putSf_base_c1 _ _ _) (putSf_fces _ _ _), fc2Tot_congr (putSf_base_c1 _ _ _) (putSf_v2fces _ _ _),
       putSf_pool]
   · rw [putSf_tot_fresh hI.struct hc.disj hT f hfid hv (hb Kind.sf), hnew]
     rfl
@@ -197,16 +197,16 @@ theorem spendSf_spec {T} {ms : Mid} (hc : Ctx T ms.base) (hI : Inv T ms) {e : Sf
       · have := (hd.2.1 h).1; rw [hm.1] at this; cases this
   have hA1 := putSf_agree hI.struct hc.disj hT f hfid
   have hA2 := agree_addSpend (ms.putSf e.id f) e.id
-  simp only [putSf_spends] at hA2 ⊢
+  simp only [putSf_spends_c1] at hA2 ⊢
   have hI' := putSf_inv' hI hc.disj hT f hfid (e.id :: ms.spends) (fun x hx => List.mem_cons_of_mem _ hx) hok
-  refine ⟨hI', hA1.trans hA2, ?_, ?_, putSf_pool _ _ _, putSf_base _ _ _⟩
+  refine ⟨hI', hA1.trans hA2, ?_, ?_, putSf_pool _ _ _, putSf_base_c1 _ _ _⟩
   · unfold Phi
     have e1 : scTot { ms.putSf e.id f with spends := e.id :: ms.spends } = scTot ms :=
-      scTot_congr (putSf_base _ _ _) (putSf_sces _ _ _)
+      scTot_congr (putSf_base_c1 _ _ _) (putSf_sces _ _ _)
     have e2 : fc1Tot { ms.putSf e.id f with spends := e.id :: ms.spends } = fc1Tot ms :=
-      fc1Tot_congr (putSf_base _ _ _) (putSf_fces _ _ _)
+      fc1Tot_congr (putSf_base_c1 _ _ _) (putSf_fces _ _ _)
     have e3 : fc2Tot { ms.putSf e.id f with spends := e.id :: ms.spends } = fc2Tot ms :=
-      fc2Tot_congr (putSf_base _ _ _) (putSf_v2fces _ _ _)
+      fc2Tot_congr (putSf_base_c1 _ _ _) (putSf_v2fces _ _ _)
     have e4 : ({ ms.putSf e.id f with spends := e.id :: ms.spends } : Mid).pool = ms.pool := putSf_pool _ _ _
     rw [e1, e2, e3, e4]
   · have e1 : sfTot { ms.putSf e.id f with spends := e.id :: ms.spends } = sfTot (ms.putSf e.id f) := sfTot_congr rfl rfl
@@ -259,15 +259,15 @@ theorem createFc2_spec {T} {ms ms' : Mid} (hc : Ctx T ms.base) (hI : Inv T ms) {
     agree_scalars rfl rfl rfl rfl rfl rfl rfl _
   have hAA := hA.trans hA2
   refine ⟨hI1.scalars rfl rfl rfl rfl rfl rfl rfl, hAA, hF.tail.agree hAA (fun q hq => hF.head_not_mem q hq), ?_, ?_, ?_,
-    putFc2_base _ _ _⟩
+    putFc2_base_c1 _ _ _⟩
   · unfold Phi
-    have e1 : scTot { ms.putFc2 id f with pool := pool } = scTot ms := scTot_congr (putFc2_base _ _ _) (putFc2_sces _ _ _)
-    have e2 : fc1Tot { ms.putFc2 id f with pool := pool } = fc1Tot ms := fc1Tot_congr (putFc2_base _ _ _) (putFc2_fces _ _ _)
+    have e1 : scTot { ms.putFc2 id f with pool := pool } = scTot ms := scTot_congr (putFc2_base_c1 _ _ _) (putFc2_sces_c1 _ _ _)
+    have e2 : fc1Tot { ms.putFc2 id f with pool := pool } = fc1Tot ms := fc1Tot_congr (putFc2_base_c1 _ _ _) (putFc2_fces _ _ _)
     have e3 : fc2Tot { ms.putFc2 id f with pool := pool } = fc2Tot (ms.putFc2 id f) := fc2Tot_congr rfl rfl
     rw [e1, e2, e3, putFc2_tot_fresh hI.struct hc.disj hT f hfid hv (hb Kind.fc2), hnew]
     have : fc2Dv ⟨⟨id, fc, none⟩, true, none, none⟩ = fc.val := rfl
     rw [this]; simp only []; rw [hp.2, htax]; omega
-  · exact sfTot_congr (putFc2_base _ _ _) (putFc2_sfes _ _ _)
+  · exact sfTot_congr (putFc2_base_c1 _ _ _) (putFc2_sfes _ _ _)
   · simp only []; rw [hp.2, htax]
 
 /-- what validation establishes about a v2 contract that is about to be revised or resolved -/
@@ -333,10 +333,10 @@ theorem reviseFc2_spec {T} {ms : Mid} (hc : Ctx T ms.base) (hI : Inv T ms) {e : 
     rw [hnew]; unfold Fc2Ok
     refine ⟨fun h => ?_, fun _ => hs.2.1, fun h => ?_, hval, hmh⟩ <;> simp at h
   have hA := putFc2_agree hI.struct hc.disj hT f hfid
-  refine ⟨putFc2_inv hI hc.disj hT f hfid hok, hA, ?_, sfTot_congr (putFc2_base _ _ _) (putFc2_sfes _ _ _),
-    putFc2_pool _ _ _, putFc2_base _ _ _⟩
+  refine ⟨putFc2_inv hI hc.disj hT f hfid hok, hA, ?_, sfTot_congr (putFc2_base_c1 _ _ _) (putFc2_sfes _ _ _),
+    putFc2_pool _ _ _, putFc2_base_c1 _ _ _⟩
   unfold Phi
-  rw [scTot_congr (putFc2_base _ _ _) (putFc2_sces _ _ _), fc1Tot_congr (putFc2_base _ _ _) (putFc2_fces _ _ _),
+  rw [scTot_congr (putFc2_base_c1 _ _ _) (putFc2_sces_c1 _ _ _), fc1Tot_congr (putFc2_base_c1 _ _ _) (putFc2_fces _ _ _),
     putFc2_pool]
   have hdv : fc2Dv (fc2New ms e.id f) = e.fc.val := by rw [hnew]; exact hval
   cases hv : ms.fc2Diff? e.id with
@@ -396,14 +396,14 @@ theorem resolveFc2_spec {T} {ms ms' : Mid} (hc : Ctx T ms.base) (hI : Inv T ms) 
       | some r => exact (hrv r rfl).2
   have hA1 := putFc2_agree hI.struct hc.disj hT f hfid
   have hA2 := agree_addSpend (ms.putFc2 e.id f) e.id
-  simp only [putFc2_spends] at hA2 ⊢
+  simp only [putFc2_spends_c1] at hA2 ⊢
   have hI' := putFc2_inv' hI hc.disj hT f hfid (e.id :: ms.spends) (fun x hx => List.mem_cons_of_mem _ hx) hok
-  refine ⟨hI', hA1.trans hA2, ?_, sfTot_congr (putFc2_base _ _ _) (putFc2_sfes _ _ _), putFc2_pool _ _ _, putFc2_base _ _ _⟩
+  refine ⟨hI', hA1.trans hA2, ?_, sfTot_congr (putFc2_base_c1 _ _ _) (putFc2_sfes _ _ _), putFc2_pool _ _ _, putFc2_base_c1 _ _ _⟩
   unfold Phi
   have e1 : scTot { ms.putFc2 e.id f with spends := e.id :: ms.spends } = scTot ms :=
-    scTot_congr (putFc2_base _ _ _) (putFc2_sces _ _ _)
+    scTot_congr (putFc2_base_c1 _ _ _) (putFc2_sces_c1 _ _ _)
   have e2 : fc1Tot { ms.putFc2 e.id f with spends := e.id :: ms.spends } = fc1Tot ms :=
-    fc1Tot_congr (putFc2_base _ _ _) (putFc2_fces _ _ _)
+    fc1Tot_congr (putFc2_base_c1 _ _ _) (putFc2_fces _ _ _)
   have e3 : fc2Tot { ms.putFc2 e.id f with spends := e.id :: ms.spends } = fc2Tot (ms.putFc2 e.id f) :=
     fc2Tot_congr rfl rfl
   have e4 : ({ ms.putFc2 e.id f with spends := e.id :: ms.spends } : Mid).pool = ms.pool := putFc2_pool _ _ _
@@ -437,7 +437,7 @@ theorem createFc1_spec {T} {ms ms' : Mid} (hc : Ctx T ms.base) (hI : Inv T ms) {
   generalize hf : (fun d : Fc1Diff => ({ d with e := { id := id, fc := fc, leaf := none }, created := true } : Fc1Diff)) = f at h
   simp only [] at h
   rw [bind_eq_ok] at h; obtain ⟨pool, hp, h⟩ := h
-  rw [addC_ok, putFc1_pool, putFc1_base] at hp
+  rw [addC_ok, putFc1_pool, putFc1_base_c1] at hp
   cases h
   have hnew : fc1New ms id f = ⟨⟨id, fc, none⟩, true, none, false, false⟩ := by
     unfold fc1New; rw [hv, ← hf]; rfl
@@ -451,15 +451,15 @@ theorem createFc1_spec {T} {ms ms' : Mid} (hc : Ctx T ms.base) (hI : Inv T ms) {
     agree_scalars rfl rfl rfl rfl rfl rfl rfl _
   have hAA := hA.trans hA2
   refine ⟨hI1.scalars rfl rfl rfl rfl rfl rfl rfl, hAA, hF.tail.agree hAA (fun q hq => hF.head_not_mem q hq), ?_, ?_, ?_,
-    putFc1_base _ _ _⟩
+    putFc1_base_c1 _ _ _⟩
   · unfold Phi
-    have e1 : scTot { ms.putFc1 id f with pool := pool } = scTot ms := scTot_congr (putFc1_base _ _ _) (putFc1_sces _ _ _)
+    have e1 : scTot { ms.putFc1 id f with pool := pool } = scTot ms := scTot_congr (putFc1_base_c1 _ _ _) (putFc1_sces_c1 _ _ _)
     have e2 : fc1Tot { ms.putFc1 id f with pool := pool } = fc1Tot (ms.putFc1 id f) := fc1Tot_congr rfl rfl
-    have e3 : fc2Tot { ms.putFc1 id f with pool := pool } = fc2Tot ms := fc2Tot_congr (putFc1_base _ _ _) (putFc1_v2fces _ _ _)
+    have e3 : fc2Tot { ms.putFc1 id f with pool := pool } = fc2Tot ms := fc2Tot_congr (putFc1_base_c1 _ _ _) (putFc1_v2fces _ _ _)
     rw [e1, e2, e3, putFc1_tot_fresh hI.struct hc.disj hT f hfid hv (hb Kind.fc1), hnew]
     have : fc1Dv ⟨⟨id, fc, none⟩, true, none, false, false⟩ = fc.val := rfl
     rw [this]; simp only []; rw [hp.2]; omega
-  · exact sfTot_congr (putFc1_base _ _ _) (putFc1_sfes _ _ _)
+  · exact sfTot_congr (putFc1_base_c1 _ _ _) (putFc1_sfes _ _ _)
   · simp only []; rw [hp.2]
 
 /-- what validation establishes about a v1 contract about to be revised or proven -/
@@ -566,10 +566,10 @@ theorem reviseFc1_spec {T} {ms : Mid} (hc : Ctx T ms.base) (hI : Inv T ms) {e : 
       · unfold fc1Dv; rw [p1, hd.1]; simp only [Bool.false_eq_true, if_false]; exact hvalcur
   obtain ⟨hfid, hok, hdv⟩ := key
   have hA := putFc1_agree hI.struct hc.disj hT f hfid
-  refine ⟨putFc1_inv hI hc.disj hT f hfid hok, hA, ?_, sfTot_congr (putFc1_base _ _ _) (putFc1_sfes _ _ _),
-    putFc1_pool _ _ _, putFc1_base _ _ _⟩
+  refine ⟨putFc1_inv hI hc.disj hT f hfid hok, hA, ?_, sfTot_congr (putFc1_base_c1 _ _ _) (putFc1_sfes _ _ _),
+    putFc1_pool _ _ _, putFc1_base_c1 _ _ _⟩
   unfold Phi
-  rw [scTot_congr (putFc1_base _ _ _) (putFc1_sces _ _ _), fc2Tot_congr (putFc1_base _ _ _) (putFc1_v2fces _ _ _),
+  rw [scTot_congr (putFc1_base_c1 _ _ _) (putFc1_sces_c1 _ _ _), fc2Tot_congr (putFc1_base_c1 _ _ _) (putFc1_v2fces _ _ _),
     putFc1_pool]
   cases hv : ms.fc1Diff? e.id with
   | none =>
@@ -657,16 +657,16 @@ theorem resolveFc1_spec {T} {ms : Mid} (hc : Ctx T ms.base) (hI : Inv T ms) {e :
   obtain ⟨hfid, hok, hdv⟩ := key
   have hA1 := putFc1_agree hI.struct hc.disj hT f hfid
   have hA2 := agree_addSpend (ms.putFc1 e.id f) e.id
-  simp only [putFc1_spends] at hA2 ⊢
+  simp only [putFc1_spends_c1] at hA2 ⊢
   have hI' := putFc1_inv' hI hc.disj hT f hfid (e.id :: ms.spends) (fun x hx => List.mem_cons_of_mem _ hx) hok
-  refine ⟨hI', hA1.trans hA2, ?_, sfTot_congr (putFc1_base _ _ _) (putFc1_sfes _ _ _), putFc1_pool _ _ _, putFc1_base _ _ _⟩
+  refine ⟨hI', hA1.trans hA2, ?_, sfTot_congr (putFc1_base_c1 _ _ _) (putFc1_sfes _ _ _), putFc1_pool _ _ _, putFc1_base_c1 _ _ _⟩
   unfold Phi
   have e1 : scTot { ms.putFc1 e.id f with spends := e.id :: ms.spends } = scTot ms :=
-    scTot_congr (putFc1_base _ _ _) (putFc1_sces _ _ _)
+    scTot_congr (putFc1_base_c1 _ _ _) (putFc1_sces_c1 _ _ _)
   have e2 : fc1Tot { ms.putFc1 e.id f with spends := e.id :: ms.spends } = fc1Tot (ms.putFc1 e.id f) :=
     fc1Tot_congr rfl rfl
   have e3 : fc2Tot { ms.putFc1 e.id f with spends := e.id :: ms.spends } = fc2Tot ms :=
-    fc2Tot_congr (putFc1_base _ _ _) (putFc1_v2fces _ _ _)
+    fc2Tot_congr (putFc1_base_c1 _ _ _) (putFc1_v2fces _ _ _)
   have e4 : ({ ms.putFc1 e.id f with spends := e.id :: ms.spends } : Mid).pool = ms.pool := putFc1_pool _ _ _
   rw [e1, e2, e3, e4]
   cases hv : ms.fc1Diff? e.id with
